@@ -455,6 +455,9 @@ def check_property(prop, tier='quick', seed=0, meta=None, only_unit=None, only_t
         rc = 2
     wall = time.time() - t_start
     meta = dict(meta); meta['bounded_counts'] = (n_bobl, n_bdis)
+    # evidence/<id>.json is only ever written by a COMPLETE run against /repo itself; partial runs (--unit/--target) and runs
+    # against a scratch tree (VERIF_REPO, used for the seeded-defect trials) write to .work/ instead
+    meta['partial'] = bool(only_unit or only_target) or os.path.realpath(REPO) != '/repo'
     write_evidence(prop, tier, seed, units, results, n_obl, n_dis, samples, bounded, undecided, violations, known_hits, checker_cmds,
                    per_backend, wall, meta)
     for uerr in undecided[:12]: log('UNDECIDED: ' + uerr[:2000])
@@ -551,5 +554,9 @@ def write_evidence(prop, tier, seed, units, results, n_obl, n_dis, samples, boun
     ev = {'property_id': prop, 'tier': tier, 'seed': int(seed), 'level': level, 'coverage': cov,
           'assumptions': trusted + ['every clause listed under not_covered_clauses is outside this check'],
           'wall_s': round(wall, 2), 'violations': len(violations)}
-    with open(os.path.join(VERIF, 'evidence', prop + '.json'), 'w') as f:
+    dest = os.path.join(VERIF, 'evidence', prop + '.json')
+    if meta.get('partial'):
+        os.makedirs(os.path.join(WORK, 'evidence_partial'), exist_ok=True)
+        dest = os.path.join(WORK, 'evidence_partial', prop + '.json')
+    with open(dest, 'w') as f:
         json.dump(ev, f, indent=1)
